@@ -48,6 +48,16 @@ theorem fuel_never_exhausted (fuel : Nat) (bs : Bytes) (h : bs.length < fuel) :
     decodeVal fuel bs ≠ .panic ∧ decodeProps fuel bs ≠ .panic ∧ ∀ n, decodeElems fuel n bs ≠ .panic :=
   ⟨(decode_np fuel).1 bs h, (decode_np fuel).2.1 bs h, fun n => (decode_np fuel).2.2 n bs h⟩
 
+/-- The whole property, as one proposition. -/
+def C05_statement : Prop :=
+  (∀ v : Val, (encode v).length = size v) ∧
+  (∀ v : Val, v.WF → ∀ rest, decode (encode v ++ rest) = ok (v, rest)) ∧
+  (∀ bs v rest, decode bs = ok (v, rest) → size v = bs.length - rest.length ∧ rest = bs.drop (size v))
+
+/-- C05 holds in full for the repaired code. -/
+theorem C05_holds : C05_statement :=
+  ⟨encode_len, decode_encode, fun bs v rest h => ⟨(size_consumed bs v rest h).1, (size_consumed bs v rest h).2.2⟩⟩
+
 /-- Every byte string that decodes yields a well-formed tree; hence it re-marshals to exactly the
 consumed bytes' length, and unmarshalling the re-marshalled bytes gives the same tree again. -/
 theorem decoded_is_stable (bs : Bytes) (v : Val) (rest : Bytes) (h : decode bs = ok (v, rest)) :
